@@ -33,6 +33,7 @@ package mvp1
 //@   ensures result2 == nil ==> m.cycle == old(m.cycle) + (risc.memReadCount(r) != 0 ? latency.MemoryAccess : 0) + ((risc.insType(r) == risc.Lb || risc.insType(r) == risc.Lh || risc.insType(r) == risc.Lw) ? 50 : 1)
 //@   ensures result2 == nil ==> result1 == risc.insType(r)
 //@   ensures result2 != nil ==> m.cycle >= old(m.cycle)
+//@   assigns m.cycle
 //@   loop 0: invariant len(memory) == _idx0 && (cap(memory) == 0 || fresh(memory)) && m.cycle == old(m.cycle) && m.ctx == old(m.ctx)
 
 // Run: the step relation is the latency model; the counter never decreases and
@@ -47,3 +48,9 @@ package mvp1
 //@   loop 0: invariant m.cycle >= old(m.cycle) && m.ctx == old(m.ctx) && m.ctx != nil && m.ctx.Registers != nil && 0 <= pc
 //@   loop 0: step m.cycle == prev(m.cycle) + latency.MemoryAccess + 1 + (risc.memReadCount(r) != 0 ? latency.MemoryAccess : 0) + ((ins == risc.Lb || ins == risc.Lh || ins == risc.Lw) ? 50 : 1) + (exe.RegisterChange ? latency.RegisterAccess : (exe.MemoryChange ? latency.MemoryAccess : 0))
 //@   loop 0: step m.cycle >= prev(m.cycle) + 311
+//@   -- the loop body applies exactly the Execution returned by the instruction (sequential reference semantics)
+//@   loop 0: step exe.PcChange ? pc == exe.NextPc : pc == prev(pc) + 4
+//@   loop 0: step exe.RegisterChange ==> exe.Register in m.ctx.Registers && m.ctx.Registers[exe.Register] == exe.RegisterValue
+//@   loop 0: step forall r risc.RegisterType :: !(exe.RegisterChange && r == exe.Register) ==> (r in m.ctx.Registers) == prev(r in m.ctx.Registers) && m.ctx.Registers[r] == prev(m.ctx.Registers[r])
+//@   loop 0: step !exe.RegisterChange && exe.MemoryChange ==> (forall k int32 :: k in exe.MemoryChanges ==> m.ctx.Memory[k] == exe.MemoryChanges[k])
+//@   loop 0: step forall a :: 0 <= a && a < len(m.ctx.Memory) && !(!exe.RegisterChange && exe.MemoryChange && int32(a) in exe.MemoryChanges) ==> m.ctx.Memory[a] == prev(m.ctx.Memory[a])
